@@ -18,13 +18,13 @@ Definition T_string : reply := RSimple [115; 116; 114; 105; 110; 103].
 Definition T_list : reply := RSimple [108; 105; 115; 116].
 Definition T_none : reply := RSimple [110; 111; 110; 101].
 Definition len_reply {A} (b : list A) : reply := RInt (Z.of_nat (List.length b)).
-Definition nil : reply := RBulk None.
+Definition RNil : reply := RBulk None.
 
-(* execute_get / get_direct: WRONGTYPE for a non-string; execute_batch_get: nil *)
+(* execute_get / get_direct: WRONGTYPE for a non-string; execute_batch_get: RNil *)
 Definition mini_fget (o : option val) : reply :=
-  match o with Some (VStr b) => RBulk (Some b) | Some (VList _) => WRONGTYPE | None => nil end.
+  match o with Some (VStr b) => RBulk (Some b) | Some (VList _) => WRONGTYPE | None => RNil end.
 Definition mini_bget (o : option val) : reply :=
-  match o with Some (VStr b) => RBulk (Some b) | _ => nil end.
+  match o with Some (VStr b) => RBulk (Some b) | _ => RNil end.
 
 (* glob: '*', '?' and literal bytes (the generated patterns use nothing else) *)
 Fixpoint glob (p : bytes) (k : bytes) {struct p} : bool :=
@@ -95,7 +95,7 @@ Definition mini_op (tag : string) (ks : list key) (a : arg) (vals : list (option
       match v with
       | Some (VStr s) => ([w_set (VStr b)], RBulk (Some s))
       | Some (VList _) => ([w_keep], WRONGTYPE)
-      | None => ([w_set (VStr b)], nil)
+      | None => ([w_set (VStr b)], RNil)
       end
   | OStrLen, [v], _ =>
       ([w_keep], match v with Some (VStr s) => len_reply s | Some (VList _) => WRONGTYPE | None => RInt 0%Z end)
@@ -117,14 +117,14 @@ Definition mini_op (tag : string) (ks : list key) (a : arg) (vals : list (option
       match v with
       | Some (VStr _) => ([w_keep], WRONGTYPE)
       | Some (VList (x :: l)) => ([Some (store_list l)], RBulk (Some x))
-      | _ => ([w_keep], nil)
+      | _ => ([w_keep], RNil)
       end
   | ORPop, [v], _ =>
       match v with
       | Some (VStr _) => ([w_keep], WRONGTYPE)
       | Some (VList l) =>
-          match rev l with x :: r => ([Some (store_list (rev r))], RBulk (Some x)) | [] => ([w_keep], nil) end
-      | None => ([w_keep], nil)
+          match rev l with x :: r => ([Some (store_list (rev r))], RBulk (Some x)) | [] => ([w_keep], RNil) end
+      | None => ([w_keep], RNil)
       end
   | OLLen, [v], _ =>
       ([w_keep], match v with Some (VStr _) => WRONGTYPE | Some (VList l) => len_reply l | None => RInt 0%Z end)
@@ -136,12 +136,12 @@ Definition mini_op (tag : string) (ks : list key) (a : arg) (vals : list (option
       let '(from_left, to_left) := match a with ArgDir f t => (f, t) | _ => (false, true) end in
       match vs with
       | Some (VStr _) => ([w_keep; w_keep], WRONGTYPE)
-      | None => ([w_keep; w_keep], nil)
+      | None => ([w_keep; w_keep], RNil)
       | Some (VList l) =>
           let popped := if from_left then match l with x :: r => Some (x, r) | [] => None end
                         else match rev l with x :: r => Some (x, rev r) | [] => None end in
           match popped with
-          | None => ([w_keep; w_keep], nil)
+          | None => ([w_keep; w_keep], RNil)
           | Some (x, rest) =>
               let same := match ks with [k1; k2] => bool_decide (k1 = k2) | _ => false end in
               let vd' := if same then store_list rest else vd in
@@ -201,7 +201,7 @@ Definition mini_exec (s : gmap key val) (c : cmd arg) : gmap key val * reply :=
       if is_randomkey tag then
         (* `data.keys().find(..)`: some key in hash-map iteration order - here the first in the
            model's order; the correspondence accepts any key of the store *)
-        (s, match map_keys s with k :: _ => RBulk (Some k) | [] => nil end)
+        (s, match map_keys s with k :: _ => RBulk (Some k) | [] => RNil end)
       else
         let '(ws, r) := mini_op tag ks a ((fun k => s !! k) <$> ks) in
         (apply_writes s (zip ks ws), r)
